@@ -75,6 +75,7 @@ type Frame struct {
 	callName map[ssa.Instruction]string
 	sendOrd  map[ssa.Instruction]int
 	recvOrd  map[ssa.Instruction]int
+	mupOrd   map[ssa.Instruction]int
 	retOrd   map[ssa.Instruction]int
 	curBlock *ssa.BasicBlock
 	curInstr ssa.Instruction
@@ -143,7 +144,7 @@ func (fr *Frame) computeOrder() {
 		in   ssa.Instruction
 		name string
 	}
-	var calls, sends, rets, recvs []site
+	var calls, sends, rets, recvs, mups []site
 	for _, b := range fr.order {
 		for _, in := range b.Instrs {
 			switch x := in.(type) {
@@ -161,6 +162,8 @@ func (fr *Frame) computeOrder() {
 				}
 			case *ssa.Return:
 				rets = append(rets, site{in, "return"})
+			case *ssa.MapUpdate:
+				mups = append(mups, site{in, "mapupdate"})
 			}
 		}
 	}
@@ -171,6 +174,11 @@ func (fr *Frame) computeOrder() {
 	byPos(sends)
 	byPos(rets)
 	byPos(recvs)
+	byPos(mups)
+	fr.mupOrd = map[ssa.Instruction]int{}
+	for i, r := range mups {
+		fr.mupOrd[r.in] = i
+	}
 	fr.recvOrd = map[ssa.Instruction]int{}
 	for i, r := range recvs {
 		fr.recvOrd[r.in] = i
